@@ -67,9 +67,8 @@ def r2(idx, rep):
         calls = [c for c in walk_no_nested(fi.node) if isinstance(c, ast.Call) and call_name(c) == "complete_run"]
         rep.check(bad is None and len(calls) == 1, "R2", f"{fi.file}::CsvPaths.{m} complete_run only on the normal path", bad or f"{len(calls)} call sites", K.where(fi, fi.node))
     # member manifests: completed comes from the csvpath, not a constant
-    fr = idx.method("ResultRegistrar", "completed")
-    src = unparse(fr.node)
-    rep.check("self.result.csvpath.completed" in src, "R2", f"{fr.file}::ResultRegistrar.completed source", src[:200], K.where(fr, fr.node))
+    fr, ok, d = K.returns(idx, "ResultRegistrar", "completed", "self.result.csvpath.completed")
+    rep.check(ok, "R2", f"{fr.file}::ResultRegistrar.completed source", d, K.where(fr, fr.node))
 
 
 MUTATORS = {"add_named_file", "add_named_files_from_dir", "set_named_files", "set_named_files_from_json", "remove_named_file",
@@ -160,5 +159,5 @@ def r6(idx, rep):
     c05.r1(idx, Proxy(rep))
     c05.r6(idx, Proxy(rep))
     # Result.collect_error keeps every error; errors.json is written from result.errors
-    fc = idx.method("Result", "collect_error")
-    rep.check("self._errors.append(error)" in unparse(fc.node), "R6", f"{fc.file}::Result.collect_error appends", "", K.where(fc, fc.node))
+    fc, ps = K.sym_result(idx, "Result", "collect_error", args={"error": "E2"}, store={"self._errors": ["E1"]})
+    rep.check(len(ps) == 1 and ps[0].final_store.get("self._errors") == ["E1", "E2"], "R6", f"{fc.file}::Result.collect_error appends", f"{ps[0].final_store.get('self._errors')}", K.where(fc, fc.node))
